@@ -142,6 +142,18 @@ func Produce(name string, style Style) string {
 		}
 		write(word)
 	}
+	if buf.Len() == 0 && name != "" {
+		// The name has no letters, digits or named characters ("_", "__", ''). Keep its
+		// underscores (like UpperCase does), so that the identifier is never empty.
+		for _, r := range name {
+			if r == '_' {
+				buf.WriteByte('_')
+			}
+		}
+		if buf.Len() == 0 {
+			write("empty")
+		}
+	}
 	return buf.String()
 }
 
